@@ -665,7 +665,7 @@ def shrink(run, failure, mismatch=False, budget=60):
     progress = True
     # wall-clock budget as well: when every re-run of a failing case costs a time-out (a session that now hangs), sixty
     # steps are hours; the failing input is reported as far as it was minimised
-    t_end = time.time() + getattr(mod, "SHRINK_SECONDS", 240)
+    t_end = time.time() + getattr(mod, "SHRINK_SECONDS", 90)
     while progress and steps < budget and time.time() < t_end:
         progress = False
         for cand in mod.shrink_candidates(cur["case"].split(" => ")[0]):
